@@ -194,7 +194,9 @@ def race_part(prop, binary="idx"):
     m = [l for l in out.splitlines() if "Data race detected" in l or "panicked" in l or "lost an insert" in l or "one winner" in l]
     if m:
         sig = "%s|race|%s" % (prop, "data-race" if "Data race" in m[0] else "assertion")
-        where = [l.strip() for l in out.splitlines() if ("c_rel" in l or "c_lat" in l or "/repo/" in l) and "-->" in l][:3]
+        lines = out.splitlines()
+        first = next((i for i, l in enumerate(lines) if l.strip() == m[0].strip() or m[0].strip() in l), 0)
+        where = [l.strip() for l in lines[first:] if "-->" in l][:3]
         rep["violations"] = [{"sig": sig, "desc": "free-running threads under Miri (%s): %s %s" % (binary, m[0].strip()[:300], " | ".join(where)[:300]), "replay": {"part": "race", "cmd": "cd engines/race && cargo +nightly miri run --offline --bin " + binary}}]
         rep["violation_total"] = 1
         rep["sig_counts"] = {sig: 1}
